@@ -35,3 +35,40 @@ theorem runOp_cacheGet_str (n : Nat) (s : Bytes) (k : Option CVal → Op) (fr : 
   simp [runOp]
 
 end TV
+
+namespace TV
+
+variable (T : UInt8 → Op) (L : Limits)
+
+/-- one fetch–execute step of a tape -/
+theorem runTape_cons (m : Nat) (fr : Frame) (sh : Shared) (c : UInt8) (rest : Bytes)
+    (hrest : fr.rest = c :: rest) (hcap : fr.len0 < fr.cap) (hr : sh.returned = false) :
+    runTape T L (m+1) fr sh =
+      (match runOp T L m (T c) { fr with rest := rest } sh with
+       | .err e sh' => .err e sh'
+       | .ok fr' sh' => runTape T L m fr' sh') := by
+  simp only [runTape, hrest, hr, Bool.false_eq_true, ↓reduceIte]
+  have : ¬ ¬ fr.len0 < fr.cap := by simpa using hcap
+  simp only [this, ↓reduceIte]
+  rfl
+
+theorem runTape_nil (m : Nat) (fr : Frame) (sh : Shared) (hrest : fr.rest = []) :
+    runTape T L (m+1) fr sh = .ok fr sh := by
+  simp only [runTape, hrest]
+
+/-- `OP_PUSH1 <len> <v>` with the operand present and room on the stack -/
+theorem run_push1 (m : Nat) (k : Op) (fr : Frame) (sh : Shared) (v rest : Bytes)
+    (hv : v.length < 256) (hrest : fr.rest = UInt8.ofNat v.length :: (v ++ rest))
+    (h1 : v.length ≤ L.maxItemSize) (h2 : sh.stack.length < L.maxItems) :
+    runOp T L (m+3) (Instr.opPush1 k) fr sh =
+      runOp T L m k { fr with rest := rest } { sh with stack := v :: sh.stack } := by
+  unfold Instr.opPush1 Instr.readU1
+  rw [runOp_read T L _ 1 _ fr sh (by simp [hrest])]
+  simp only [hrest, List.take_succ_cons, List.take_zero, List.drop_succ_cons, List.drop_zero]
+  have hn : natOfBytesBE [UInt8.ofNat v.length] = v.length := by
+    simp [natOfBytesBE, UInt8.toNat_ofNat', Nat.mod_eq_of_lt hv]
+  rw [hn, runOp_read T L _ _ _ _ sh (by simp)]
+  simp only [List.take_left', List.drop_left']
+  rw [runOp_push T L _ v _ _ sh h1 h2]
+
+end TV
